@@ -39,7 +39,7 @@ ASSUMPTIONS = [
     "reference decision for datagram sequences and the independent acceptability predicate (wire walker) in this file",
     "virtual clock: dns.query.time / dns.asyncquery.time; readiness is scripted through dns.query._wait_for and the socket stand-ins",
 ]
-REQUIRED = ["mon.udp_flood_deadline", "mon.udp_with_fallback", "mon.tcp_deadline", "mon.udp_sync", "mon.udp_async", "mon.returned_is_acceptable", "mon.tcp_reassembly", "mon.tcp_eof_positions", "mon.tcp_write_framing", "mon.tcp_async"]
+REQUIRED = ["mon.send_tcp_message_object", "mon.udp_flood_deadline", "mon.udp_with_fallback", "mon.tcp_deadline", "mon.udp_sync", "mon.udp_async", "mon.returned_is_acceptable", "mon.tcp_reassembly", "mon.tcp_eof_positions", "mon.tcp_write_framing", "mon.tcp_async"]
 BUDGET = {"quick": 45.0, "thorough": 480.0}
 
 DEST = ("192.0.2.53", 53)
@@ -759,6 +759,48 @@ def check_flood(ctx, rng, is_async):
         ctx.violation(f"datagrams-read-on-after-the-deadline:{mode}", f"{fake.reads_after_deadline} datagrams read after the deadline (timeout {timeout}, one datagram per {tick} s, {n} skipped ones{' then the genuine reply' if genuine_after else ''}); ended with {got} at +{clock.now - 5000.0:.2f} s", case)
 
 
+def check_send_tcp_message(ctx, rng, is_async):
+    """send_tcp given a Message OBJECT (plain, padded, TSIG-signed): what reaches the stream is one frame -- a two-octet length
+    followed by exactly that many octets, which parse as the message (signature included) -- under any partial-write pattern"""
+    import dns.tsig
+
+    ctx.count("evaluations")
+    ctx.count("mon.send_tcp_message_object")
+    q = make_query(rng)
+    flavour = rng.choice(("plain", "signed", "signed", "padded", "signed+padded"))
+    key = dns.tsig.Key("frame-key.example.", b"0123456789abcdef", rng.choice((dns.tsig.HMAC_SHA256, dns.tsig.HMAC_SHA512)))
+    if "padded" in flavour:
+        q.use_edns(0, 0, 1232, pad=128)
+    if "signed" in flavour:
+        q.use_tsig(key)
+    send_plan = rng.choice(([], [1, 1, 1000], [0, 3, 0, 1000], [2, 0, 1000]))
+    fake = FakeStream(b"", [], set(), send_plan=list(send_plan))
+    mode = "async" if is_async else "sync"
+    case = {"kind": "send-tcp-message", "mode": mode, "flavour": flavour, "send_plan": send_plan}
+    clock = Clock()
+    try:
+        with swap_attr(dns.query, "time", clock), swap_attr(dns.query, "_wait_for", scripted_wait_for), swap_attr(dns.asyncquery, "time", clock):
+            if is_async:
+                run_async(dns.asyncquery.send_tcp(AsyncStream(fake), q, clock.now + 5))
+            else:
+                dns.query.send_tcp(fake, q, clock.now + 5)
+    except Exception as e:
+        ctx.violation(f"send_tcp-raised:{mode}:" + core.exc_sig(e), repr(e), case)
+        return
+    out = bytes(fake.written)
+    ctx.seen(("send-tcp-message", mode, flavour, bool(send_plan)))
+    if len(out) < 2 or struct.unpack("!H", out[:2])[0] != len(out) - 2:
+        ctx.violation(f"tcp-frame-length-prefix-differs-from-message-length:{mode}:{flavour}", f"prefix says {struct.unpack('!H', out[:2])[0] if len(out) >= 2 else None}, {len(out) - 2} octets follow", case)
+        return
+    try:
+        back = dns.message.from_wire(out[2:], keyring=key if "signed" in flavour else None)
+    except Exception as e:
+        ctx.violation(f"tcp-frame-does-not-parse-as-the-message:{mode}:{flavour}:" + core.exc_sig(e), repr(e), case)
+        return
+    if ("signed" in flavour) != back.had_tsig:
+        ctx.violation(f"tcp-frame-lost-the-signature:{mode}:{flavour}", "", case)
+
+
 def check_real_backend_deadline(ctx, rng):
     """the shipped asyncio backend itself (real datagram sockets on the loopback interface, a peer that never answers): an
     exchange whose time is up -- a tiny timeout, or none left at all (0) -- ends in Timeout; it does not wait on.  The verdict
@@ -858,6 +900,7 @@ def run(spec, ctx):
     for i in range(200):
         check_fallback(ctx, rng, is_async=(i % 2 == 1))
         check_flood(ctx, rng, is_async=(i % 2 == 1))
+        check_send_tcp_message(ctx, rng, is_async=(i % 2 == 0))
     # exhaustive over option combinations x single-category preludes before the genuine reply
     combos = [(a, b, c, d) for a in (False, True) for b in (False, True) for c in (False, True) for d in (False, True)]
     k = 0
